@@ -39,6 +39,32 @@ macro_rules! kat {
     };
 }
 
+/// (message, digest) pairs of a published KAT file, by hash name (e.g. "Groestl256", "Jh512").
+pub fn kat_pairs(name: &str) -> Vec<(&'static [u8], &'static [u8])> {
+    let blob: &'static [u8] = match name {
+        "Blake224" => kat!("blake224.blb"),
+        "Blake256" => kat!("blake256.blb"),
+        "Blake384" => kat!("blake384.blb"),
+        "Blake512" => kat!("blake512.blb"),
+        "Groestl224" => kat!("groestl224.blb"),
+        "Groestl256" => kat!("groestl256.blb"),
+        "Groestl384" => kat!("groestl384.blb"),
+        "Groestl512" => kat!("groestl512.blb"),
+        "Jh224" => kat!("ShortMsgKAT_224.blb"),
+        "Jh256" => kat!("ShortMsgKAT_256.blb"),
+        "Jh384" => kat!("ShortMsgKAT_384.blb"),
+        "Jh512" => kat!("ShortMsgKAT_512.blb"),
+        "Skein256-32" => kat!("skein256_32.blb"),
+        "Skein512-32" => kat!("skein512_32.blb"),
+        "Skein1024-32" => kat!("skein1024_32.blb"),
+        "Skein256-64" => kat!("skein256_64.blb"),
+        "Skein512-64" => kat!("skein512_64.blb"),
+        "Skein1024-64" => kat!("skein1024_64.blb"),
+        _ => panic!("no KAT file for {}", name),
+    };
+    blobby(blob).chunks(2).map(|p| (p[0], p[1])).collect()
+}
+
 fn msg(n: usize) -> Vec<u8> {
     (0..n).map(|i| ((i * 131 + 7) % 251) as u8).collect()
 }
